@@ -137,6 +137,25 @@ def putEntry (S : SE B DM) (max fuel : Nat) (pre : B → B) (e : Entry) (data : 
     Except EncErr (Chunk B × List (Chunk B)) :=
   encrypt S max fuel (if e.passesBytesUnchanged then data else pre data)
 
+/-- The chunks the entry point hands to `upload_chunks_with_retries` (read from the source by rs2lean): the private put
+all chunks `encrypt` returned (the data-map chunk goes back to the caller), the public put all of them and the data-map
+chunk; the cost estimate uploads nothing. -/
+def uploaded (e : Entry) (dataMapChunk : Chunk B) (chunks : List (Chunk B)) : List (Chunk B) :=
+  match e with
+  | .dataPut => if Gen.SelfEnc.dataPutUploadsChunks then chunks else []
+  | .dataPutPublic =>
+    (if Gen.SelfEnc.dataPutPublicUploadsChunks then chunks else []) ++
+      (if Gen.SelfEnc.dataPutPublicUploadsDataMap then [dataMapChunk] else [])
+  | .dataCost => []
+
+/-- The records `upload_chunks_with_retries` / `chunk_upload_with_payment` PUT, as the chunks a holder then stores under
+their keys: every handed-in chunk the receipt has an entry for (`paid`, by chunk name = address), keyed by its own
+address, value unchanged (flags from the source). A chunk without a receipt entry is skipped as "already paid" — and the
+put still returns `Ok`. -/
+def putRecords (paid : Nat → Bool) (cs : List (Chunk B)) : List (Chunk B) :=
+  if Gen.SelfEnc.uploadSkipsOnlyUnpaid && Gen.SelfEnc.putRecordIsChunkUnderOwnAddress then cs.filter (fun c => paid c.address)
+  else []
+
 /-! ## Fetching (`client/utils.rs`) -/
 
 /-- one download task of `fetch_from_data_map`: `chunk_get(info.dst_hash)` mapped to `EncryptedChunk { index, content }` -/
